@@ -19,14 +19,14 @@ B = tys.Bool
 @lemma("C08", params=lambda: [(m,) for m in deletion_masks(4)],
        unbounded="port offsets of B's value links",
        bounds="B: 4 nodes in a 3-level hierarchy with any deletable set removed (holes) and optional index reuse, metadata on odd nodes or none, "
-              "one symbolic link plus an optional duplicate of it (quick) / <= 3 optional links (thorough): value links with symbolic offsets, order links, multi-links; A: root + 2 nodes with one optional link; "
-              "insertion parent symbolic among A's nodes or omitted; one task per deletion set",
+              "no link, or one symbolic link plus an optional duplicate of it: value links with symbolic offsets, order links, multi-links (quick: queried at that link's ports; thorough: at any port of any node); A: root + 2 nodes with one link and optionally two freed indices; "
+              "insertion parent symbolic among 2 (quick) / 3 (thorough) of A's nodes or omitted; one task per deletion set",
        outside="larger B / A", opts={"max_paths": 400000, "timeout_s": 3000})
 def insert_hugr_is_isomorphic_embedding(dels):
     b, live = holey_hugr(4, tag="b.", dels=dels)
     if not sym.concretize(sym.bool("B_has_links")):
         blinks = []  # B without any link: counts come from the creation-time requests alone
-    elif P(True, False):
+    elif True:
         blinks = live_links(1, live, tag="bl", max_off=None)
         if blinks:  # a second link duplicating the first (multi-link on both ports), optional
             l0 = blinks[0]
@@ -34,7 +34,7 @@ def insert_hugr_is_isomorphic_embedding(dels):
     else:
         blinks = live_links(3, live, tag="bl", max_off=None)
     store.attach_links(b, blinks, {i: ARITY[9 if i == getattr(b, "_arity_of_reused", None) else i][1] for i in live if i != 0})
-    alinks = [store.Link(True, 1, 0, 2, 1)] if P(True, False) else store.sym_links(1, 3, tag="al")
+    alinks = [store.Link(True, 1, 0, 2, 1)]
     a, anodes = store.make_store(3, alinks)
     if sym.concretize(sym.bool("A_has_freed_index")):
         # A deleted a node earlier: the first inserted node reuses its index (and must not inherit anything from it)
@@ -103,7 +103,7 @@ def insert_hugr_is_isomorphic_embedding(dels):
         exp_kids = kids + ([mu[0].idx] if idx == par.idx else [])
         oka = oka and a[n].op is op and a[n].parent == parent and [c.idx for c in a.children(n)] == exp_kids
     sym.check("prior_nodes_of_A_unchanged", oka)
-    if P(True, False):
+    if True:
         sym.check("prior_links_of_A_unchanged", list(a.linked_ports(OutPort(Node(1), 0))) == [InPort(Node(2), 1)]
                   and list(a.linked_ports(InPort(Node(2), 1))) == [OutPort(Node(1), 0)] and list(a.linked_ports(InPort(Node(1), 0))) == [])
     else:
